@@ -870,6 +870,32 @@ func ruleLenNarrow(c *Ctx, r *Reporter) {
 		}
 	}
 	r.note("%d narrowing conversions of lengths found", n)
+	// 16-bit arithmetic on prefix lengths: an addition or multiplication carried out in uint16 wraps
+	// around for prefix lengths near 65535 ((prefixLen+7)/8, 8*bytes, running bit counters)
+	m := 0
+	for _, fn := range c.Funcs {
+		if fn.Package() == nil || shortPkg(fn.Package().Pkg.Path()) != "lpm" {
+			continue
+		}
+		if strings.HasPrefix(fn.Name(), "validate") || strings.HasPrefix(fn.Name(), "show") || fn.Name() == "Print" {
+			continue
+		}
+		ord := 0
+		for _, ia := range allInstrs(fn) {
+			bo, ok := ia.In.(*ssa.BinOp)
+			if !ok || (bo.Op != token.ADD && bo.Op != token.MUL && bo.Op != token.SHL) {
+				continue
+			}
+			bt, ok := bo.Type().Underlying().(*types.Basic)
+			if !ok || bt.Kind() != types.Uint16 {
+				continue
+			}
+			m++
+			ord++
+			r.badP([]string{"C13", "C18"}, fmt.Sprintf("%s|16-bit arithmetic#%d", c.fnName(fn), ord), c.posStr(instrPos(bo)), "an addition/multiplication on prefix lengths is carried out in uint16 and wraps around for prefix lengths close to 65536: the number of data bytes or matched bits becomes 0 and different prefixes collapse into one key")
+		}
+	}
+	r.note("%d 16-bit arithmetic sites in package lpm", m)
 }
 
 func isConstInt(v ssa.Value) bool {
@@ -940,6 +966,46 @@ func ruleChangesInit(c *Ctx, r *Reporter) {
 		}
 	}
 	r.check(good, "statedb.(genTable).Changes|tracker name unique while registered", c.posStr(instrPos(add)), "the name is derived from the tracker object (or a counter)", why)
+	// (1b) deletions the creating transaction made before Changes() are not tracked (no tracker
+	// was registered when they happened) while the iterator's sources are read from the committed
+	// root, i.e. the state before that transaction: until the creating transaction has committed,
+	// nothing can be delivered without losing them. Next must refuse snapshots older than the
+	// iterator's creation (a comparison of the snapshot's table revision with a field of the iterator).
+	{
+		refuses := false
+		for _, name := range []string{"Next", "refresh"} {
+			f := c.Func("statedb", "changeIterator", name)
+			if f == nil {
+				continue
+			}
+			for _, ia := range allInstrs(f) {
+				bo, ok := ia.In.(*ssa.BinOp)
+				if !ok {
+					continue
+				}
+				switch bo.Op {
+				case token.LSS, token.LEQ, token.GTR, token.GEQ:
+				default:
+					continue
+				}
+				_, okx := loadOfField(bo.X, "tableEntry", "revision")
+				_, oky := loadOfField(bo.Y, "tableEntry", "revision")
+				isItField := func(v ssa.Value) bool {
+					if a, ok := isLoad(v); ok {
+						if fa, ok := a.(*ssa.FieldAddr); ok {
+							tn, _, _ := fieldOf(fa)
+							return tn == "changeIterator"
+						}
+					}
+					return false
+				}
+				if (okx && isItField(bo.Y)) || (oky && isItField(bo.X)) {
+					refuses = true
+				}
+			}
+		}
+		r.checkP([]string{"C07"}, refuses, "statedb.(changeIterator).Next|snapshots older than the iterator's creation are refused", c.posStr(fn.Pos()), "Next compares the snapshot's table revision with the revision recorded at creation", "Changes() called after the creating transaction already deleted objects: those deletions were not tracked, the delete cursor starts at the transaction's own revision, but Next(wtxn) reads the committed root from before the transaction and delivers the deleted objects as updates - their deletion is never delivered (commit 1,2; in one write transaction Delete(1), it := Changes(wtxn), it.Next(wtxn), Commit: replay stays {1,2}, table is {2})")
+	}
 	// (2) watermark set before registration
 	set := false
 	for _, call := range c.callsNamed(fn, "statedb.(deleteTracker).setRevision") {
@@ -1110,5 +1176,196 @@ func ruleCloseOnce(c *Ctx, r *Reporter) {
 		r.ok(key, c.posStr(fn.Pos()), "no unguarded close of a channel shared with sibling transactions")
 	} else {
 		r.bad(key, c.posStr(instrPos(pos)), fmt.Sprintf("Notify closes %d channel(s) of the previous tree unconditionally: a second transaction made from the same Tree value (t1 := t0.Insert(a,1); t2 := t0.Insert(a,2) - Tree values are persistent and may be forked) closes them again and panics with 'close of closed channel'", raw))
+	}
+}
+
+func init() {
+	register(&Rule{
+		ID: "YIELD-RETURN", Props: []string{"C17", "C11", "C13", "C04", "C07"}, Floor: 20,
+		Doc: "every call of a range-over-func yield function looks at its result: an iterator that ignores `false` calls yield again after the loop body has finished, which the runtime turns into a panic ('range function continued iteration after function for loop body returned false') as soon as a caller breaks out of the loop",
+		Run: ruleYieldReturn,
+	})
+	register(&Rule{
+		ID: "CLEANUP-NONBLOCK", Props: []string{"C10"}, Floor: 1,
+		Doc: "functions handed to runtime.AddCleanup / runtime.SetFinalizer do not wait for a table lock themselves: the runtime runs cleanups sequentially on a few shared goroutines, so a cleanup that opens a write transaction is stuck behind any writer of that table and holds up the cleanups of every other table (blocking work is moved to its own goroutine)",
+		Run: ruleCleanupNonblock,
+	})
+}
+
+func ruleYieldReturn(c *Ctx, r *Reporter) {
+	n := 0
+	for _, fn := range c.Funcs {
+		if fn.Package() == nil {
+			continue
+		}
+		pk := shortPkg(fn.Package().Pkg.Path())
+		if strings.HasPrefix(pk, "reconciler/") {
+			continue
+		}
+		ord := 0
+		for _, ia := range allInstrs(fn) {
+			call, ok := ia.In.(*ssa.Call)
+			if !ok || call.Call.IsInvoke() {
+				continue
+			}
+			v := call.Call.Value
+			if l, ok := isLoad(v); ok {
+				v = l
+			}
+			name := ""
+			switch x := v.(type) {
+			case *ssa.Parameter:
+				name = x.Name()
+			case *ssa.FreeVar:
+				name = x.Name()
+			default:
+				continue
+			}
+			if name != "yield" {
+				continue
+			}
+			sig, ok := call.Call.Value.Type().Underlying().(*types.Signature)
+			if !ok || sig.Results().Len() != 1 {
+				continue
+			}
+			if bt, ok := sig.Results().At(0).Type().Underlying().(*types.Basic); !ok || bt.Kind() != types.Bool {
+				continue
+			}
+			n++
+			ord++
+			used := false
+			if refs := call.Referrers(); refs != nil {
+				for _, ref := range *refs {
+					if _, ok := ref.(*ssa.DebugRef); !ok {
+						used = true
+					}
+				}
+			}
+			if !used {
+				// ignoring the result is harmless when nothing is yielded afterwards
+				again := blockReaches(call.Block(), call.Block())
+				for _, ib := range allInstrs(fn) {
+					if c2, ok := ib.In.(*ssa.Call); ok && c2 != call && c2.Call.Value == call.Call.Value && instrReaches(call, c2) {
+						again = true
+					}
+					if c2, ok := ib.In.(*ssa.Call); ok && c2 != call && instrReaches(call, c2) {
+						if l1, ok1 := isLoad(c2.Call.Value); ok1 {
+							if l0, ok0 := isLoad(call.Call.Value); ok0 && l0 == l1 {
+								again = true
+							}
+						}
+					}
+				}
+				// inside a range-over-func body: the enclosing iteration goes on unless the body
+				// reports `false` (break/return) after the call
+				if !again && fn.Parent() != nil && fn.Signature.Results().Len() == 1 {
+					if bt, ok := fn.Signature.Results().At(0).Type().Underlying().(*types.Basic); ok && bt.Kind() == types.Bool {
+						for _, ret := range returnsOf(fn) {
+							if !instrReaches(call, ret) {
+								continue
+							}
+							if cst, ok := ret.Results[0].(*ssa.Const); ok && cst.Value != nil && cst.Value.String() == "false" {
+								continue
+							}
+							again = true
+						}
+					}
+				}
+				if !again {
+					used = true
+				}
+			}
+			props := []string{"C04"}
+			switch pk {
+			case "part":
+				props = []string{"C17", "C11"}
+			case "lpm":
+				props = []string{"C13"}
+			case "index":
+				props = []string{"C04"}
+			case "statedb":
+				props = []string{"C04", "C07"}
+			}
+			r.checkP(props, used, fmt.Sprintf("%s|yield#%d result is used", c.fnName(fn), ord), c.posStr(instrPos(call)), "the iterator stops (or records the outcome) when yield returns false", "the result of yield is ignored: when the caller breaks out of its range loop the iterator calls yield again and the program panics")
+		}
+	}
+	if n < 20 {
+		r.undecided("yields", "-", fmt.Sprintf("expected at least 20 yield calls in the module, found %d", n))
+	}
+}
+
+func ruleCleanupNonblock(c *Ctx, r *Reporter) {
+	cg := c.CG()
+	n := 0
+	for _, fn := range c.Funcs {
+		for _, ia := range allInstrs(fn) {
+			call, ok := ia.In.(*ssa.Call)
+			if !ok {
+				continue
+			}
+			cn := c.calleeName(call)
+			idx := -1
+			switch {
+			case strings.HasPrefix(cn, "runtime.AddCleanup"):
+				idx = 1
+			case cn == "runtime.SetFinalizer":
+				idx = 1
+			}
+			if idx < 0 || idx >= len(call.Call.Args) {
+				continue
+			}
+			var target *ssa.Function
+			switch x := stripConv(call.Call.Args[idx]).(type) {
+			case *ssa.Function:
+				target = x
+			case *ssa.MakeClosure:
+				target, _ = x.Fn.(*ssa.Function)
+			case *ssa.MakeInterface:
+				switch y := x.X.(type) {
+				case *ssa.Function:
+					target = y
+				case *ssa.MakeClosure:
+					target, _ = y.Fn.(*ssa.Function)
+				}
+			}
+			if target == nil || !c.inModule(target) {
+				continue
+			}
+			n++
+			// synchronous reachability (go statements are not followed)
+			blocking := ""
+			seen := map[*ssa.Function]bool{}
+			var walk func(f *ssa.Function, depth int)
+			walk = func(f *ssa.Function, depth int) {
+				if seen[f] || depth > 8 || blocking != "" {
+					return
+				}
+				seen[f] = true
+				for _, ib := range allInstrs(f) {
+					ci, ok := ib.In.(ssa.CallInstruction)
+					if !ok {
+						continue
+					}
+					if _, isGo := ib.In.(*ssa.Go); isGo {
+						continue
+					}
+					name := c.calleeName(ci)
+					if name == "statedb.(DB).WriteTxn" || name == nSmusLock || name == nMutexLock {
+						blocking = name + " at " + c.posStr(instrPos(ib.In))
+						return
+					}
+					for _, e := range cg.Out[f] {
+						if e.Site == ib.In && e.Callee != nil && c.inModule(e.Callee) {
+							walk(e.Callee, depth+1)
+						}
+					}
+				}
+			}
+			walk(target, 0)
+			r.check(blocking == "", fmt.Sprintf("%s|cleanup %s does not block", c.fnName(fn), c.fnName(target)), c.posStr(instrPos(call)), "the cleanup function reaches no lock acquisition synchronously", "the cleanup function waits for a lock ("+blocking+") on the runtime's shared cleanup goroutine: while a writer keeps that table open, the cleanups of every other table (and of the whole process) are stuck behind it")
+		}
+	}
+	if n == 0 {
+		r.anchorMissing("runtime.AddCleanup / SetFinalizer with a module function")
 	}
 }
